@@ -96,12 +96,28 @@ deriving DecidableEq, Repr
 def Run.builds (r : Run) : List Build :=
   r.ebuild.toList ++ r.sbuild.toList
 
-/-- Compile one (executor, suite) pair into the builds of its runs.
-Suite location defaults to the executor's (already absolute) path; the
-environment is the suite's if it sets one, else the executor's, else empty
-(exp_run_details.py:58 `config.get('env', defaults.env)`, default `{}`). -/
+/-- The effective environment of a run: `env` is looked up on seven levels — machine,
+`runs`, experiment, execution details, executor, suite, benchmark — each
+`ExpRunDetails.compile` doing `config.get('env', defaults.env)` (exp_run_details.py:58):
+the innermost level that defines `env` *replaces* what the outer ones say; the default is
+the empty environment. `levels` lists the levels from the outermost to the innermost. -/
+def lastDefined : List (Option Env) → Option Env
+  | [] => none
+  | l :: rest => match lastDefined rest with
+    | some e => some e
+    | none => l
+
+/-- the environment as the processes get it: run_id.py:130-139 expands a leading `~` of
+every value (`expand_user(value, False)`, for values that are a single shell word) -/
+def expandEnv (home : String) (e : Env) : Env := e.map (fun kv => (kv.1, expandUser home kv.2))
+
+/-- Compile one (executor, suite, benchmark) triple into a run with its builds.
+Suite location defaults to the executor's (already absolute) path. `outer` are the `env`
+settings of machine, `runs`, experiment and execution details (outermost first), `benchEnv`
+the benchmark's own. -/
 def mkRun (cwd : String) (id : Nat) (e : ExecCfg) (s : SuiteCfg) (inv : Nat) (excl : Bool)
-    (done0 : Nat := 0) : Run :=
+    (done0 : Nat := 0) (home : String := "/root") (outer : List (Option Env) := [])
+    (benchEnv : Option Env := none) : Run :=
   let epath := absPath cwd e.path
   let sloc := match s.location with
     | some l => absPath cwd (some l)
@@ -109,9 +125,7 @@ def mkRun (cwd : String) (id : Nat) (e : ExecCfg) (s : SuiteCfg) (inv : Nat) (ex
   { id := id
     ebuild := mkBuild e.build epath
     sbuild := mkBuild s.build sloc
-    env := match s.env with
-      | some v => v
-      | none => e.env.getD []
+    env := expandEnv home ((lastDefined (outer ++ [e.env, s.env, benchEnv])).getD [])
     inv := inv, excl := excl, done0 := done0 }
 
 /-- result of running a build script -/
